@@ -73,6 +73,22 @@ claim("C17", "MIR call-graph must-reach with only-allowed-bypass + state-machine
       "Decides that a clean shutdown (Drop of Walrus) synchronously reaches the marker store's fsync+rename on all paths with a snapshot of all topic states, that appends mark dirty "
       "before anything can fail, that the marker state machine stores/loads the same atomic, and the atomic-replace protocol of the marker file.", design="4/C17")
 
+claim("C06", "MIR sibling agreement of layout tables + natural-loop exit rule",
+      "Decides two structural clauses for every input: the allocator's block layout (limit, offset step) equals the recovery scan's (limit = stride = DEFAULT_BLOCK_SIZE), and the "
+      "per-file unit loop of recovery has no exit other than its condition (an unreadable unit is skipped, never ends the scan). Cursor translation across synthetic block ids, counts "
+      "after restart and clock regression are not decided.", design="4/C06")
+claim("C07", "MIR dominance along the resolved call chain + plan completeness + error-source table",
+      "Ack-after-write decided on all paths from the public append APIs down to the positional write of each backend, plan completeness/element agreement in both batch paths, and that "
+      "every error exit of the open path originates from a filesystem call or lock (never from decoding file contents). What recovery reconstructs is covered only by C06's clauses.",
+      design="4/C07")
+claim("C11", "MIR panic-freedom enumeration with discharge rules/table + who-may-call + dominance of length bounds",
+      "Enumerates every potential panic site (Assert terminators, unwrap/expect, indexing, slice copies, allocations) in the call-graph closure of the open path and discharges each by "
+      "a dominance/interval rule or a reasoned table row; forbids unvalidated rkyv roots on file bytes (9 known findings listed); requires a dominating bound for every use of the "
+      "on-disk length; checksum gate. Hangs and mis-association of valid-looking foreign entries are not decided.", design="4/C11")
+claim("C13", "static inventory + interprocedural key provenance + who-may-call for filesystem sinks",
+      "Decides which process-global state exists (inventory of interior-mutable statics against a reasoned table), that global maps are keyed by root-derived paths (one known finding), "
+      "and that filesystem access is confined to triaged functions with root-derived operands. Observable interference itself is not decided.", design="4/C13")
+
 ALL = ["C%02d" % i for i in range(1, 26)]
 PENDING = "check under construction in this round (planned in DESIGN.md section 4); not claimed until its rules exist and are calibrated"
 for p in ALL:
